@@ -1601,13 +1601,18 @@ fn classify_hang(log: &[Rec], timeout: Duration) -> (Option<&'static str>, Strin
         let reached = cur.iter().filter(|r| r.thread == ptid && r.point == "bp_before_send").count();
         let received = cur.iter().filter(|r| r.point == "c_recv" && r.info.starts_with("bp:")).count();
         let unparks = {
-            // completed unparks by cont calls that answered a received breakpoint
+            // cont calls that answered a received breakpoint and returned Ok, as the controller saw them at the
+            // API boundary (not the unpark point inside cont: a cont that returns Ok without waking the parser
+            // is exactly the defect to be seen here)
             let mut n = 0;
             let mut real = false;
             for r in cur {
                 match r.point {
                     "c_cont_call" => real = split_info(&r.info).0 == "stopped",
-                    "cont_after_unpark" if real => n += 1,
+                    "c_cont_ret" if real && r.info == "ok" => {
+                        n += 1;
+                        real = false;
+                    }
                     _ => {}
                 }
             }
